@@ -704,39 +704,26 @@ def compute_online_moments_basic(
 @njit(cache=True, fastmath=True)
 def add_online_moments(a: np.ndarray, b: np.ndarray, c: np.ndarray) -> None:
     c["count"][:] = a["count"] + b["count"]
+    # Counts as floats: integer powers of the counts overflow for long streams
+    n_a = a["count"].astype(np.float64)
+    n_b = b["count"].astype(np.float64)
+    n_c = n_a + n_b
     delta = b["m1"] - a["m1"]
     delta2 = delta * delta
     delta3 = delta * delta2
     delta4 = delta2 * delta2
 
-    c["m1"][:] = (a["count"] * a["m1"] + b["count"] * b["m1"]) / c["count"]
-    c["m2"][:] = a["m2"] + b["m2"] + delta2 * a["count"] * b["count"] / c["count"]
-    c["m3"][:] = (
-        a["m3"]
-        + b["m3"]
-        + delta3
-        * a["count"]
-        * b["count"]
-        * (a["count"] - b["count"])
-        / (c["count"] ** 2)
-    )
-    c["m3"][:] += 3 * delta * (a["count"] * b["m2"] - b["count"] * a["m2"]) / c["count"]
+    c["m1"][:] = (n_a * a["m1"] + n_b * b["m1"]) / n_c
+    c["m2"][:] = a["m2"] + b["m2"] + delta2 * n_a * n_b / n_c
+    c["m3"][:] = a["m3"] + b["m3"] + delta3 * n_a * n_b * (n_a - n_b) / (n_c**2)
+    c["m3"][:] += 3 * delta * (n_a * b["m2"] - n_b * a["m2"]) / n_c
     c["m4"][:] = (
         a["m4"]
         + b["m4"]
-        + delta4
-        * a["count"]
-        * b["count"]
-        * (a["count"] ** 2 - a["count"] * b["count"] + b["count"] ** 2)
-        / (c["count"] ** 3)
+        + delta4 * n_a * n_b * (n_a**2 - n_a * n_b + n_b**2) / (n_c**3)
     )
-    c["m4"][:] += (
-        6
-        * delta2
-        * (a["count"] ** 2 * b["m2"] + b["count"] ** 2 * a["m2"])
-        / (c["count"] ** 2)
-    )
-    c["m4"][:] += 4 * delta * (a["count"] * b["m3"] - b["count"] * a["m3"]) / c["count"]
+    c["m4"][:] += 6 * delta2 * (n_a**2 * b["m2"] + n_b**2 * a["m2"]) / (n_c**2)
+    c["m4"][:] += 4 * delta * (n_a * b["m3"] - n_b * a["m3"]) / n_c
     c["max"][:] = np.maximum(a["max"], b["max"])
     c["min"][:] = np.minimum(a["min"], b["min"])
 
